@@ -92,7 +92,9 @@ where
     let stride = (w as usize * bpp as usize + 7) / 8;
     let n = stride * h as usize;
     let mut x = d.raw() | 1;
-    let mode = d.u(0, 2);
+    // auxiliary word 3: one image in 16 is uniform (a constant byte: 0x00, 0xff, 0xaa or anything)
+    let mode = if d.aux_u(3, 0, 15) == 15 { 3 } else { d.u(0, 2) };
+    let uniform = [0x00u8, 0xff, 0xaa, x as u8][(x >> 9) as usize % 4];
     let data: Vec<u8> = (0..n)
         .map(|i| match mode {
             0 => {
@@ -103,7 +105,8 @@ where
             }
             // (the i >> 8 and i >> 16 terms break the period of 256 bytes: data displaced by 256 or 65536 bytes differs)
             1 => (i as u32).wrapping_mul(29).wrapping_add((i as u32 >> 8).wrapping_mul(7)).wrapping_add((i as u32 >> 16).wrapping_mul(3)).wrapping_add(x) as u8,
-            _ => ((i as u32).wrapping_add(x) % 251) as u8 ^ 0x5a,
+            2 => ((i as u32).wrapping_add(x) % 251) as u8 ^ 0x5a,
+            _ => uniform,
         })
         .collect();
     let offset = Point::new(d.i(-9, 9), d.i(-9, 9)) + crate::gen::far_offset(d);
